@@ -230,7 +230,9 @@ class Prerequisite:
                     # -ve cycles: \b needs to be to the right of the `-` char.
                     pattern = fr"-\b{re.escape(msg[1:])}\b"
                 else:
-                    pattern = fr"\b{re.escape(msg)}\b"
+                    # (?<!-): do not match inside the message of the same
+                    # task/output at the negated point ("1/b ..." in "-1/b ...")
+                    pattern = fr"(?<!-)\b{re.escape(msg)}\b"
                 expr = re.sub(
                     pattern,
                     self.SATISFIED_TEMPLATE % t_output,
